@@ -279,4 +279,29 @@ def storedBody (authOn decoderWhenAuthOff : Bool) (P : Params) (wire : Bytes) : 
   else if decoderWhenAuthOff then decode { P with skipValidation := true, trailerSigned := false } wire
   else .ok wire
 
+/-- How a request proves who sent it — the four ways an upload can reach the handlers. -/
+inductive Carrier where
+  /-- `Authorization: AWS4-HMAC-SHA256 …`; the chunk chain is seeded by its `Signature=` -/
+  | header
+  /-- presigned URL (`X-Amz-Signature` in the query string, which seeds the chunk chain) -/
+  | presigned
+  /-- credentials configured on the server, none on the request (anonymous branch) -/
+  | anonymous
+  /-- no credentials configured on the server -/
+  | authOff
+  deriving Repr, DecidableEq
+
+/-- the framing-only decoder (`installAwsChunkReader(…, verifySignatures = false)`): no key, so
+signatures are ignored; a declared checksum trailer is still validated -/
+def framingOnly (P : Params) : Params := { P with skipValidation := true, trailerSigned := false }
+
+/-- The body the upload handler reads, for every carrier. `checkAuthentication` installs the
+verifying reader for *both* authenticated carriers (`if isAwsChunked` does not look at
+`isPresigned`; `P.seed` is the request's own signature, wherever it travelled);
+`unauthDecoder` = the tree has `decodeUnauthenticatedAwsChunkedBody` (since /repo c8f3b44). -/
+def handlerBody (unauthDecoder : Bool) (carrier : Carrier) (P : Params) (wire : Bytes) : Except Err Bytes :=
+  match carrier with
+  | .header | .presigned => decode P wire
+  | .anonymous | .authOff => if unauthDecoder then decode (framingOnly P) wire else .ok wire
+
 end Pithos.Chunked
